@@ -140,7 +140,7 @@ NumPool == <<
   A("f:+Inf",                          "float",  310),
   NaNAtom >>
 
-NumById(id) == LET i == CHOOSE j \in 1..Len(NumPool) : NumPool[j].id = id IN NumPool[i]
+NumById(id) == NumPool[CHOOSE j \in 1..Len(NumPool) : NumPool[j].id = id]   \* (no LET: TLC would not cache constants built from it)
 NA(id) == Num(NumById(id))                       \* number term from the pool by id
 
 \* well-formedness of a set of number atoms sharing one rank scale
